@@ -26,7 +26,9 @@ TRANSPARENT = {
     "alloc::boxed::Box::new", "alloc::boxed::Box::as_ref", "std::io::Cursor::new", "std::io::cursor::Cursor::new",
     "std::io::cursor::Cursor::get_ref", "core::mem::take",
     "alloc::sync::Arc::new", "core::slice::<impl [T]>::as_ref",
-    "alloc::vec::Vec::from", "alloc::vec::from_elem",
+    "alloc::vec::Vec::from", "core::slice::iter", "core::slice::iter_mut", "core::slice::as_ref", "core::str::as_bytes",
+    "alloc::str::to_string", "core::array::as_slice", "core::array::as_ref", "alloc::slice::to_vec", "core::slice::to_vec",
+    "alloc::slice::<impl [T]>::to_vec", "core::array::iter",
 }
 
 
